@@ -59,23 +59,4 @@ theorem cold_idOps : ∀ l : List POp, ColdOps l → coldOps l = l
   | o :: os, h => by simp only [ColdOps] at h; simp only [coldOps, cold_idO o h.1, cold_idOps os h.2]
 end
 
-/-! ### observables -/
-
-section Obs
-variable {κ ν : Type} [DecidableEq κ]
-
-theorem observe_spec {f : κ → Option ν} {cap : Nat} (hcap : 0 < cap) (d : Discipline) (hd : d ≠ .assertHit)
-    {c : Cache.LRU κ ν} (hi : Cache.Inv f c) (k : κ) :
-    (observe d cap f c k).1 = f k ∧ Cache.Inv f (observe d cap f c k).2 := by
-  cases d with
-  | pure => exact ⟨rfl, hi⟩
-  | recompute => exact Cache.goA_spec hcap k hi
-  | assertHit => exact absurd rfl hd
-
-theorem observe_assert_cold (cap : Nat) (f : κ → Option ν) (k : κ) :
-    (observe .assertHit cap f ([] : Cache.LRU κ ν) k).1 = none := by
-  simp [observe, Cache.assertHit, Cache.has]
-
-end Obs
-
 end Dx.Pickle
